@@ -9,9 +9,17 @@ X_RE = re.compile(r" \(x (?:\([^()]*\) ?)*\)")
 K_RE = re.compile(r" \(k(?: \([0-9 ]*\))*\)")
 
 
+SP_RE = re.compile(r" \(sp [a-z?]*\)")
+
+
 def strip_known(line):
-    """Removes the model-only `(k (sw class ...) ...)` element from a model.out line."""
-    return K_RE.sub("", line)
+    """Removes the model-only `(k (sw class ...) ...)` and `(sp ...)` elements from a model.out line."""
+    return SP_RE.sub("", K_RE.sub("", line))
+
+
+def spec_of(line):
+    m = SP_RE.search(line)
+    return m.group(0)[5:-1] if m else None
 
 
 def known_of(line):
